@@ -231,9 +231,11 @@ def _mmap(fileno, length=0, *a, **k):
     return MMapObj(data if not length else data[:length])
 
 
-def file_source(data: bytes, position: int = 0, on_disk: bool = False) -> Obj:
+def file_source(data: bytes, position: int = 0, on_disk: bool = False, max_chunk: Optional[int] = None) -> Obj:
     """A binary file object; ``position`` is where the handle stands when it is given to the library (a caller may have
-    peeked at the file before); ``on_disk`` files have a descriptor (fileno), in-memory ones raise like io.BytesIO."""
+    peeked at the file before); ``on_disk`` files have a descriptor (fileno), in-memory ones raise like io.BytesIO;
+    ``max_chunk``: read(n) with n > 0 hands out at most that many bytes per call (io.BufferedIOBase.read: "a short result
+    does not imply that EOF is imminent" - only b'' means end of file)."""
     st = {"pos": position, "reads": 0}
     if on_disk:
         fd = 1000 + len(_FD_TABLE)
@@ -244,7 +246,7 @@ def file_source(data: bytes, position: int = 0, on_disk: bool = False) -> Obj:
         if n is None or n < 0:
             out = data[st["pos"]:]
         else:
-            out = data[st["pos"]:st["pos"] + n]
+            out = data[st["pos"]:st["pos"] + (n if max_chunk is None else min(n, max_chunk))]
         st["pos"] += len(out)
         return out
 
